@@ -5,7 +5,12 @@ V = os.path.dirname(os.path.dirname(os.path.abspath(__file__)))
 props = [json.loads(l) for l in open(os.path.join(V, "properties.jsonl"))]
 
 # id -> (technique, level text, level note, design ref)
+DIFF = "bounded-exhaustive grammar/derivation enumeration executed on the real code, compared point by point with a reference interpreter"
 claimed = {
+ "C01": (DIFF + " (map-order seam fixed to sorted)",
+         "every expression of the stated core sub-grammar (start x step chains, parenthesised prefixes, operators, let) is run on every JSON document of the stated alphabet and compared with the reference interpreter wherever it is determinate; exhaustive within the bounds, silent outside",
+         "trusts the reference interpreter mc/ref (bound to the compliance corpus: 1024/1028 cases reproduced, 4 abstentions, 0 disagreements) and the instrumentation seam",
+         "4/C01"),
  "C12": ("bounded-exhaustive enumeration of (n,start,stop,step,subject,form) executed on the real code vs the spec's slice walk; deterministic tick budget",
          "every point of the stated finite space is executed through Search and compared with the specification's slice algorithm; within the bounds the verdict is exhaustive, outside them nothing is claimed",
          "trusts the transcription of the spec's slice algorithm (Python slice.indices) and the check-time instrumentation (validated against the pristine build)",
